@@ -1033,6 +1033,19 @@ class Evaluator:
                     pass
             if a.kind == 'str' and b.kind == 'str' and isinstance(a.val, str) and isinstance(b.val, str) and isinstance(node.op, ast.Add):
                 return const_av(a.val + b.val)
+            if isinstance(node.op, ast.Mult) and ((isinstance(a.val, str) and isinstance(b.val, int) and not isinstance(b.val, bool)) or
+                                                  (isinstance(b.val, str) and isinstance(a.val, int) and not isinstance(a.val, bool))):
+                if len(a.val if isinstance(a.val, str) else b.val) * max(0, a.val if isinstance(a.val, int) else b.val) > 10 ** 6:
+                    raise Unknown('a very long repeated text')
+                return const_av(a.val * b.val)
+            if isinstance(node.op, ast.Mod) and isinstance(a.val, str) and (b.val is not None or b.items is not None):
+                try:
+                    arg_ = tuple(x.val for x in b.items) if b.kind == 'tuple' and b.items is not None else b.val
+                    if isinstance(arg_, tuple) and any(x is None for x in arg_):
+                        raise Unknown('% formatting of unknown values')
+                    return const_av(a.val % arg_)
+                except (TypeError, ValueError) as e_:
+                    raise AbsRaise(type(e_).__name__, str(e_))
             raise Unknown('arithmetic')
         if isinstance(node, ast.NamedExpr):
             v_ = self.ev(node.value, env)
@@ -1435,9 +1448,13 @@ class Evaluator:
                 return AV('list', items=tuple(reversed(v.items)))
             raise Unknown('reversed')
         if name == 'len':
-            v = self.ev(node.args[0], env)
+            v = self.unbox(self.ev(node.args[0], env))
             if v.items is not None:
                 return const_av(len(v.items))
+            if v.kind == 'str' and isinstance(v.val, str):
+                return const_av(len(v.val))
+            if v.kind in ('int', 'float', 'bool', 'none'):
+                raise AbsRaise('TypeError', f'object of type {v.kind} has no len()')
             raise Unknown('len')
         if name in ('abs',):
             v = self.ev(node.args[0], env)
@@ -1631,6 +1648,18 @@ class Evaluator:
             if recv.kind == 'str' and isinstance(recv.val, str) and f.attr in ('isdigit', 'isalpha', 'isupper', 'islower', 'isnumeric') \
                     and not node.args:
                 return const_av(getattr(recv.val, f.attr)())
+            if recv.kind == 'str' and isinstance(recv.val, str) and not node.keywords and f.attr in (
+                    'find', 'rfind', 'index', 'rindex', 'count', 'replace', 'startswith', 'endswith', 'title', 'capitalize', 'swapcase', 'casefold',
+                    'zfill', 'ljust', 'rjust', 'center', 'isalnum', 'isspace', 'isdecimal', 'isidentifier', 'istitle', 'removeprefix',
+                    'removesuffix', 'partition', 'rpartition', 'splitlines', 'rsplit', 'strip', 'lstrip', 'rstrip', 'expandtabs'):
+                args_ = [self.ev(a, env) for a in node.args]
+                if all((a_.val is not None and isinstance(a_.val, (str, int)) and not isinstance(a_.val, bool)) or a_.kind == 'none' or
+                       (a_.kind == 'tuple' and a_.items is not None and all(isinstance(x.val, str) for x in a_.items)) for a_ in args_):
+                    plain_ = [None if a_.kind == 'none' else tuple(x.val for x in a_.items) if a_.kind == 'tuple' else a_.val for a_ in args_]
+                    try:
+                        return self._from_python(getattr(recv.val, f.attr)(*plain_))
+                    except (ValueError, TypeError) as e_:
+                        raise AbsRaise(type(e_).__name__, str(e_))
             if recv.kind == 'str' and isinstance(recv.val, str) and f.attr == 'join' and len(node.args) == 1:
                 parts_ = self.unbox(self.ev(node.args[0], env))
                 if parts_.items is None or not all(x.kind == 'str' and isinstance(x.val, str) for x in parts_.items):
